@@ -14,7 +14,9 @@ From Coq Require Import NArith List.
 From MZ.lib Require Import Mach.
 From MZ.spec Require Import DeflateSpec.
 From MZ.model Require Import DeflateCore.
-From MZ.proofs Require Import DeflateCounts StoredSpec StoredStream StoredSchedules.
+From MZ.lib Require Import Arr.
+From MZ.model Require InflateCore.
+From MZ.proofs Require Import DeflateCounts StoredSpec StoredStream StoredSchedules InflateStoredChunks StoredStreamEndToEnd.
 Import ListNotations.
 Local Open Scope N_scope.
 
@@ -43,3 +45,39 @@ Example C02_a_schedule_that_finishes :
   | _ => False
   end.
 Proof. vm_compute. split; reflexivity. Qed.
+
+(* ... and with the decoder modelled too, under every split of the emitted bytes: whatever schedule drove the
+   compressor model to Done and however its output (followed by arbitrary further bytes) is cut into input
+   slices for the decoder model M_inf, the decoder ends with Done, has consumed exactly the emitted stream
+   and delivered exactly the input the compressor consumed (C02 and C07 composed on the two models) *)
+Theorem C02_level0_any_schedule_then_any_split_partial :
+  forall (data : list N) (cflags wb iflags : N) (sched : list (N * N * N)) (out : list N) (n : N)
+         (extra : list N) (pieces : list (list N)) (o : arr) s total o' p',
+  hasf cflags FLAG_RAW = true -> wb <= 15 -> bytes_ok data ->
+  Forall (fun it => legal_flush (snd it)) sched ->
+  drive (comp_new cflags wb) data sched [] 0 = Ret (Some (out, n)) ->
+  InflateCore.has iflags InflateCore.F_ZLIB = hasf cflags FLAG_ZLIB ->
+  InflateCore.has iflags InflateCore.F_STOPBB = false -> InflateCore.has iflags InflateCore.F_NONWRAP = true ->
+  InflateCore.has iflags InflateCore.F_MORE = true ->
+  concat pieces = out ++ extra ->
+  n < alen o -> alen o <= USIZE_MAX ->
+  feed iflags InflateCore.dec_default o 0 pieces 0 = Ret (s, total, o', p') ->
+  s = InflateCore.Done /\ total = N.of_nat (length out) /\ p' = n /\ aget_list o' 0 p' = firstn (N.to_nat n) data.
+Proof. exact level0_any_schedule_any_split. Qed.
+
+(* non-vacuity: the stream of the schedule above, fed to the decoder model in slices of 7 bytes *)
+Fixpoint slices (k : nat) (l : list N) (fuel : nat) : list (list N) :=
+  match fuel, l with
+  | O, _ | _, [] => []
+  | S f, _ => firstn k l :: slices k (skipn k l) f
+  end.
+Example C02_schedule_then_slices :
+  match drive (comp_new 528384 15) (repeat 65 300) [(7, 3, 0); (100, 5, 2); (50, 1000, 3); (1000, 4, 4); (0, 1000, 4)] [] 0 with
+  | Ret (Some (out, n)) =>
+      match feed 7 InflateCore.dec_default (amake 301 0) 0 (slices 7 out 400) 0 with
+      | Ret (s, total, o', p') => s = InflateCore.Done /\ total = 321 /\ p' = 300
+      | _ => False
+      end
+  | _ => False
+  end.
+Proof. vm_compute. repeat split; reflexivity. Qed.
